@@ -10,3 +10,4 @@ import RelicVerif.Props.C03
 import RelicVerif.Props.C18
 import RelicVerif.Props.C20
 import RelicVerif.Props.C08
+import RelicVerif.Props.C11
